@@ -47,13 +47,29 @@ fn main() {
     let (mut systems, mut checked, mut excl_degenerate, mut excl_illcond, mut excl_branch, mut excl_not_exact) = (0usize, 0usize, 0usize, 0usize, 0usize, 0usize);
     let mut iter_hist = [0usize; 10];
     let mut short_features = 0usize;
+    let (mut fully_pinned, mut full_rank) = (0usize, 0usize);
+    let mut analysis_failed = 0usize;
     for i in 0..n {
         let pert = *rng.pick(&[1e-4, 1e-3, 1e-2]);
         // (now and then a sketch several times larger: size-dependent paths)
         let max_cons = if rng.chance(1, 40) { 90 } else { *rng.pick(&[1usize, 2, 4, 8, 15]) };
-        let sys = if rng.chance(1, 60) { gen_large_one_off(&mut rng) } else { gen_planted(&mut rng, max_cons, pert, &SHAPES) };
+        let large = rng.chance(1, 60);
+        let sys = if large { gen_large_one_off(&mut rng) } else { gen_planted(&mut rng, max_cons, pert, &SHAPES) };
         // (now and then with a short, fully determined feature: guards that are wider than documented)
         let short = rng.chance(1, 10);
+        // one plant in four is fully pinned (every coordinate also fixed at its planted value): certainly
+        // full rank, so every clause of the property applies at full strength
+        let sys = if rng.chance(1, 4) && !short && !large {
+            let mut s2 = sys;
+            if let Some(p) = s2.planted.clone() {
+                for (id, v) in p.iter().enumerate() {
+                    let at = rng.below(s2.reqs.len() + 1);
+                    s2.reqs.insert(at, ConstraintRequest::highest_priority(Constraint::Fixed(id as u32, *v)));
+                }
+                fully_pinned += 1;
+            }
+            s2
+        } else { sys };
         let base_len = sys.guesses.len();
         let sys = if short { short_features += 1; with_short_feature(&mut rng, sys) } else { sys };
         let _ = i;
@@ -102,20 +118,34 @@ fn main() {
             continue;
         }
         // 3. conditioning of the linearisation at the plant: ratio of the smallest non-zero to the
-        // largest singular value (from the solver's own SVD hook, run at the plant)
-        let mut at_plant = sys.clone();
-        at_plant.guesses = xs.iter().enumerate().map(|(i, v)| (i as u32, *v)).collect();
-        vh::trace_start();
-        let _ = solve_analysis(&at_plant.reqs, at_plant.guesses.clone(), at_plant.config());
-        let ev = vh::trace_take();
-        let sigma: Vec<f64> = ev.iter().rev().find_map(|e| if let TraceEvent::Dof { sigma, .. } = e { Some(sigma.clone()) } else { None }).unwrap_or_default();
+        // largest singular value.  Computed independently of the solver (finite-difference Jacobian of
+        // the error measures, own Jacobi eigenvalue routine) for all but the largest systems, where the
+        // solver's own SVD hook is used (and a failure of that analysis is a violation, not an excuse).
+        let sigma: Vec<f64> = if xs.len() <= 64 {
+            fd_singular_values(&sys.reqs, &xs)
+        } else {
+            let mut at_plant = sys.clone();
+            at_plant.guesses = xs.iter().enumerate().map(|(i, v)| (i as u32, *v)).collect();
+            vh::trace_start();
+            let ra = solve_analysis(&at_plant.reqs, at_plant.guesses.clone(), at_plant.config());
+            let ev = vh::trace_take();
+            if ra.is_err() {
+                // (a failure of the freedom analysis itself - faer's SVD not converging, known finding F18 -
+                // is not C02's business; the system is then judged without a conditioning estimate)
+                analysis_failed += 1;
+            }
+            ev.iter().rev().find_map(|e| if let TraceEvent::Dof { sigma, .. } = e { Some(sigma.clone()) } else { None }).unwrap_or_default()
+        };
         let smax = sigma.iter().cloned().fold(0.0f64, f64::max);
         let smin_nz = sigma.iter().cloned().filter(|s| *s > 1e-9 * smax).fold(f64::INFINITY, f64::min);
-        if sigma.is_empty() || smax == 0.0 || smin_nz / smax < 1e-4 {
+        if (sigma.is_empty() && xs.len() <= 64) || (!sigma.is_empty() && (smax == 0.0 || smin_nz / smax < 1e-4)) {
             excl_illcond += 1;
             continue;
         }
         checked += 1;
+        if sigma.iter().filter(|s| **s > 1e-9 * smax).count() >= xs.len() {
+            full_rank += 1;
+        }
         let d0: f64 = x0.iter().zip(&xs).map(|(a, b)| (a - b) * (a - b)).sum::<f64>().sqrt();
         let mut bad = |what: String, sig: String| {
             out.push(Violation { property: "C02", what, signature: sig, system: Some(sys.clone()), extra: format!("pert {pert} scale {} sigma_ratio {:.2e}", sys.scale, smin_nz / smax) })
@@ -182,7 +212,10 @@ fn main() {
                         // needs for a 1e-2 ball (about 2*pert*sqrt(n)): the nearby solution's basin is smaller
                         // than the ball, in exact arithmetic too; the iterates slide along the weak direction
                         let weak = smin_nz / smax < (3.0 * d0 / sys.scale.max(1e-9)).max(0.05);
-                        let bucket = if under { "under-determined" } else if weak && wk != "" { "ill-conditioned" } else { "fully-determined" };
+                        // the known finding F15 is about sliding along the solution set "always still within
+                        // the sketch scale": a result farther than ten times the sketch's size from the guess is
+                        // something else
+                        let bucket = if d1 > 10.0 * sys.scale.max(1e-9) { "beyond-the-sketch" } else if under { "under-determined" } else if weak && wk != "" { "ill-conditioned" } else { "fully-determined" };
                         bad(format!("result is {d1:.3e} from the guess, more than 1.5 x the distance {d0:.3e} from the guess to the planted solution (kinds: {})", kinds.join("+")), format!("jumps-away-{bucket}"));
                     }
                 }
@@ -196,7 +229,7 @@ fn main() {
         }
     }
     println!(
-        "STATS {{\"systems\": {systems}, \"checked\": {checked}, \"excluded_not_exact\": {excl_not_exact}, \"excluded_degenerate\": {excl_degenerate}, \"excluded_branch_switch\": {excl_branch}, \"excluded_ill_conditioned\": {excl_illcond}, \"with_short_feature\": {short_features}, \"iterations_hist\": {:?}, \"violations\": {}}}",
+        "STATS {{\"systems\": {systems}, \"checked\": {checked}, \"excluded_not_exact\": {excl_not_exact}, \"excluded_degenerate\": {excl_degenerate}, \"excluded_branch_switch\": {excl_branch}, \"excluded_ill_conditioned\": {excl_illcond}, \"with_short_feature\": {short_features}, \"fully_pinned\": {fully_pinned}, \"full_rank\": {full_rank}, \"large_systems_whose_analysis_failed\": {analysis_failed}, \"iterations_hist\": {:?}, \"violations\": {}}}",
         iter_hist,
         out.len()
     );
